@@ -2,6 +2,7 @@ import AasVerif.Lemmas.LexBlock
 import AasVerif.Lemmas.LexLine
 import AasVerif.Lemmas.LexLineCppPy
 import AasVerif.Lemmas.LexPyDoc
+import AasVerif.Lemmas.Indent
 import AasVerif.Lemmas.Xml
 import AasVerif.Gen.Descr
 /-!
@@ -418,6 +419,32 @@ ECMAScript 2019 and later (the stated edition) that is one string literal; U+202
 theorem ts_string_literal_admits_ls_ps :
     lexC js .code [34, 97, 0x2028, 0x2029, 34] = [.str [97, 0x2028, 0x2029]] ∧
     lexC js .code [47, 47, 97, 0x2028, 98] = [.comment [97], .nl, .code 98] := by
+  decide
+
+end AasVerif.Props.C20
+
+namespace AasVerif.Props.C20
+open AasVerif AasVerif.Descr AasVerif.Lex AasVerif.Indent AasVerif.Gen.Descr
+
+/-! ## The indentation helper: rendered code is cut only at its line feeds -/
+
+/-- `common.indent_but_first_line`: for EVERY non-empty rendered code and every indention without LF,
+the LF-separated lines of the result are exactly the LF-separated lines of the code (a last empty one
+dropped), the indention in front of all non-empty lines but the first. No other line-boundary character
+(U+2028, U+0085, FS … inside a string literal) cuts a line: a literal stays on its line, entire. -/
+theorem indent_splits_only_at_lf (ind t : Text) (hind : 10 ∉ ind) (ht : t ≠ []) :
+    splitChar 10 (indentButFirst indentSplit indentJoin ind t) = indentLines ind (codeLines 10 t) :=
+  indentButFirst_lines 10 ind t hind ht
+
+example : (10 : Nat) ∉ ([32, 32] : Text) ∧ ([34, 0x2028, 34, 44, 10, 34, 98, 34] : Text) ≠ [] := by decide
+
+/-- With `str.splitlines` in the place of `split("\n")` (the defect of the unchanged tree) the statement
+is false: the TypeScript literal `"<LS>"` is cut in two lines, neither of which is a string token. -/
+theorem indent_with_splitlines_full_fails :
+    let old := joinNl (indentLines [32, 32] (splitLines [34, 0x2028, 34]))
+    splitChar 10 old ≠ indentLines [32, 32] (codeLines 10 [34, 0x2028, 34]) ∧
+    lexC js .code old = [.bad "newline-in-string", .code 32, .code 32, .bad "unterminated-string"] ∧
+    lexC js .code (indentButFirst indentSplit indentJoin [32, 32] [34, 0x2028, 34]) = [.str [0x2028]] := by
   decide
 
 end AasVerif.Props.C20
